@@ -82,6 +82,9 @@ pub struct Q {
 #[derive(Clone, Debug, Default, Serialize, Deserialize, PartialEq)]
 pub struct L {
     pub mask: Vec<u8>,
+    /// the mask is installed with a nil listener (NO_LISTENER): the entity consumes those statuses silently
+    #[serde(default, skip_serializing_if = "is_false")]
+    pub nil: bool,
 }
 
 #[derive(Clone, Debug, Serialize, Deserialize, PartialEq)]
